@@ -68,6 +68,13 @@ def pick_codes(ctx):
     out = []
     for kind, lst in byk.items():
         out += ctx.rng.sample(lst, min(len(lst), 6 if kind in ("ml", "syn") else 3))
+    # codes whose object advertises only a lower bound below the true capability (cyclic codes with k > 12): a complete decoder still has
+    # to correct up to the code's own floor((d-1)/2)
+    dd = c03.data(ctx)
+    under = [n_ for n_, d_ in dd.items() if d_.get("true_d") and not d_["knownBad"] and (int(d_["true_d"]) - 1) // 2 > c02.capability(d_)
+             and d_["n"] - d_["k"] <= 8 and d_["n"] <= 24]
+    for n_ in ctx.rng.sample(under, min(len(under), 3)):
+        out.append((n_, "syn"))
     return out
 
 
@@ -122,6 +129,9 @@ def corr(ctx):
         enc = c.enc
         n, k = d["n"], d["k"]
         t = c02.capability(d)
+        if kind in ("ml", "syn") and d.get("true_d") and not d.get("knownBad"):
+            # complete decoders correct up to the code's own floor((d-1)/2), whatever lower bound the object advertises
+            t = max(t, (int(d["true_d"]) - 1) // 2)
         if kind == "ml":
             dec, verb = D_.BruteForceMLDecoder(enc), "ml"
         elif kind == "syn":
@@ -217,6 +227,30 @@ def corr(ctx):
                         ops.append(Op("gray 0", "0", nontrivial=True, info={"site": "models:ChannelCodeModel.reassigned", "config": dict(cfg, reassigned=which, sent=[bstr(m_) for m_ in msgs], got=rows2)},
                                       prop_ok=(rows2 == [bstr(m_) for m_ in msgs])))
                     ctx.count("reassigned_stage_chains", 3)
+    # ---------------- a digital channel in the chain (real BPSK over a binary symmetric / Z channel with probability 0 = ideal): several
+    # calls on ONE model object, the first of which carries only all-zero code words (all +1 after BPSK)
+    from kaira.channels.digital import BinarySymmetricChannel, BinaryZChannel
+    from kaira.modulations.psk import BPSKModulator, BPSKDemodulator
+    for chname, mkch in (("BinarySymmetricChannel(0)", lambda: BinarySymmetricChannel(0.0)), ("BinaryZChannel(0)", lambda: BinaryZChannel(0.0))):
+        for encx, decx, cname in ((E_.HammingCodeEncoder(3), None, "Hamming(7,4)+syndrome"), (E_.ReedMullerCodeEncoder(1, 3), "reed", "RM(1,3)+Reed")):
+            decoder = D_.ReedMullerDecoder(encx) if decx == "reed" else D_.SyndromeLookupDecoder(encx)
+            try:
+                model = ChannelCodeModel(encx, IdentityConstraint(), BPSKModulator(complex_output=False), mkch(), BPSKDemodulator(), decoder)
+                kx = encx.code_dimension
+                hist = []
+                for call, msgs in enumerate(([[0] * kx], [[0] * kx, [0] * kx], [[rng.getrandbits(1) for _ in range(kx)] for _ in range(3)], [[1] * kx], [[rng.getrandbits(1) for _ in range(kx)]])):
+                    try:
+                        out = model(torch.tensor(msgs, dtype=torch.float32))
+                        out = out[0] if isinstance(out, tuple) else out
+                        got = [bstr(r) for r in out.reshape(len(msgs), -1).tolist()]
+                    except Exception as e:
+                        got = ["other:%s" % type(e).__name__]
+                    hist.append(len(msgs))
+                    ops.append(Op("gray 0", "0", nontrivial=True, info={"site": "models:ChannelCodeModel.memory", "config": {"modulation": "real BPSK over %s, %s" % (chname, cname), "mode": "default", "blocks_per_row_history": list(hist), "sent": [bstr(m) for m in msgs], "got": got}},
+                                  prop_ok=(got == [bstr(m) for m in msgs])))
+            except Exception as e:
+                ctx.notes.append("digital-channel chain %s / %s not built: %s: %s" % (chname, cname, type(e).__name__, e))
+        ctx.count("digital_channel_chain")
     # ---------------- a modulation with memory in the chain: pi/4-QPSK (binary labelling), several calls on ONE model object,
     # in the default (training) mode where the alternation state is carried from call to call, and in evaluation mode after a reset
     from kaira.modulations import pi4qpsk
@@ -291,7 +325,7 @@ def search(ctx, mismatches, broken, prop_fail):
             continue
         seen.add(key)
         if site.endswith(".memory"):
-            what = "Hamming(7,4) + syndrome decoder over pi/4-QPSK, %s mode, calls with %s blocks per row on one model object: sent %s, received %s" % (cfg.get("mode"), cfg.get("blocks_per_row_history"), cfg.get("sent"), cfg.get("got"))
+            what = "chain over %s, %s mode, calls with %s rows / blocks per row on one model object: sent %s, received %s" % (cfg.get("modulation"), cfg.get("mode"), cfg.get("blocks_per_row_history"), cfg.get("sent"), cfg.get("got"))
         elif site.endswith(".reassigned"):
             what = "%s + %s decoder over %s, ideal channel, after re-assigning the model's stage attribute(s) [%s] to the same / equivalent stages: sent %s, received %s" % (cfg.get("code"), cfg.get("decoder"), cfg.get("table"), cfg.get("reassigned"), cfg.get("sent"), cfg.get("got"))
         elif site.endswith(".soft"):
